@@ -24,20 +24,22 @@ Ev == Case.events[j]
 StartMap(c) == MapOfSorted(c.before)
 
 \* the contract's expectation for the statement of record c, recomputed here from its AST
-NoExp == [selected |-> <<>>, writes |-> <<>>, evalfails |-> FALSE, modelled |-> FALSE]
+NoExp == [selected |-> <<>>, writes |-> <<>>, evalfails |-> FALSE, modelled |-> FALSE, keys |-> <<>>, keysknown |-> FALSE]
 ExpOf(c) ==
   IF ~c.hasstmt THEN NoExp
   ELSE IF c.kind = "delete" THEN
        [selected |-> DeleteKeys(c.stmt, c.before), writes |-> <<>>, evalfails |-> FALSE,
-        modelled |-> Evaluable(c.before, c.stmt.where, <<>>)]
+        modelled |-> Evaluable(c.before, c.stmt.where, <<>>), keys |-> <<>>, keysknown |-> FALSE]
   ELSE IF c.kind = "put" THEN
        LET st == PutStatus(c.stmt)  pv == PutVals(c.stmt) IN
        [selected |-> <<>>, writes |-> IF st = "ok" THEN [i \in 1..Len(pv) |-> [k |-> pv[i].k.s, v |-> pv[i].v.s]] ELSE <<>>,
-        evalfails |-> st = "err", modelled |-> st # "unspec"]
+        evalfails |-> st = "err", modelled |-> st # "unspec",
+        \* the keys alone (a value the contract leaves open does not make the KEY it is stored under open)
+        keys |-> [i \in 1..Len(pv) |-> pv[i].k.s], keysknown |-> \A i \in 1..Len(pv) : pv[i].k.t = "s"]
   ELSE IF c.kind = "remove" THEN
        LET st == RemoveStatus(c.stmt)  rv == RemoveVals(c.stmt) IN
        [selected |-> IF st = "ok" THEN [i \in 1..Len(rv) |-> rv[i].s] ELSE <<>>, writes |-> <<>>,
-        evalfails |-> st = "err", modelled |-> st # "unspec"]
+        evalfails |-> st = "err", modelled |-> st # "unspec", keys |-> <<>>, keysknown |-> FALSE]
   ELSE NoExp
 
 Init == /\ l = 1 /\ j = 1 /\ cur = <<>> /\ pos = 1 /\ nwrites = 0 /\ faulted = FALSE /\ re = FALSE
@@ -72,7 +74,9 @@ Judge(c, ev) ==
   ELSE IF ev.op \in {"Put", "BatchPut"} /\ c.kind = "put" THEN
        (IF nwrites >= 1 THEN "write-issued-more-than-once"                                                         \* C12
         ELSE IF exp.evalfails THEN "write-despite-failed-evaluation"
-        ELSE IF ~exp.modelled THEN ""
+        ELSE IF ~exp.modelled THEN
+             (IF ~exp.keysknown THEN ""
+              ELSE IF (IF ev.op = "Put" THEN <<ev.k>> ELSE ev.ks) = exp.keys THEN "" ELSE "put-writes-under-other-keys")
         ELSE IF ev.op = "Put" THEN (IF Len(exp.writes) = 1 /\ exp.writes[1].k = ev.k /\ exp.writes[1].v = ev.v THEN "" ELSE "put-writes-other-pair")
         ELSE (IF Len(exp.writes) = Len(ev.ks) /\ \A i \in 1..Len(ev.ks) : exp.writes[i].k = ev.ks[i] /\ exp.writes[i].v = ev.vs[i]
               THEN "" ELSE "put-writes-other-pairs"))
